@@ -510,14 +510,16 @@ theorem c08_translation_agrees_run_entry (cfg : Cfg) (now : Nat) (b : Breaker) :
 theorem c08_translation_agrees_run_update (cfg : Cfg) (now : Nat) (b : Breaker) (success blocked : Bool) (z y : Cls) :
     Tr.run_update cfg now b success blocked z y = applyEvent cfg now b (classifyRun success blocked z y) := by
   unfold Tr.run_update
-  rw [c08_translation_agrees_record_success, c08_translation_agrees_record_failure]
+  simp only [c08_translation_agrees_record_success, c08_translation_agrees_record_failure]
   cases success <;> cases blocked <;> cases z <;> cases y <;> simp [classifyRun, applyEvent]
 
 /-- structure of `run()` around the translated blocks: the entry block comes before the cache lookup and the
-    agents, the `except` handler of the agent calls records a failure first, and nothing else in `run()` calls a
-    breaker method or writes a breaker field. -/
+    agents, the `except` handler of the agent calls records a failure first, nothing else in `run()` calls a
+    breaker-writing method or writes a breaker field, and no method outside the call graph of `run` /
+    `reset_circuit_breaker` / `get_circuit_breaker_stats` writes a breaker field. -/
 theorem c08_translation_agrees_run_structure :
-    Tr.run_entry_first = true ∧ Tr.run_exception_records_failure = true ∧ Tr.run_other_breaker_sites = 0 := by
+    Tr.run_entry_first = true ∧ Tr.run_exception_records_failure = true ∧ Tr.run_other_breaker_sites = 0 ∧
+    Tr.other_breaker_writers = 0 := by
   decide
 
 /-! ### Non-vacuity: concrete histories meeting the hypotheses -/
